@@ -10,7 +10,7 @@ CHECKS = {
  "C02": ("MC_Query", "expansion through any prefix/synonym incl. the empty prefix and multi-character delimiters; expand/expand_pair/expand_reference/expand_all/expand_pair_all compared with the spec and with the declarative statement on logged answers"),
  "C03": ("MC_Query", "round-trip laws between compress, expand, expand_all, standardize_* evaluated on logged answers (closure strings are probed too); prefix-free and non-prefix-free maps both occur"),
  "C04": ("MC_Build", "every sequence (all orders, repetitions) of <=3 clash-rich records through the strict constructor and the loaders: outcome class, reported clash pairs, bimap inverse, one owner"),
- "C05": ("MC_Incr", "every history of <=3 add_record calls x 4 flag combinations (narrow pools, deep) and every single add over all one-synonym records (wide, shallow); step law as TLC action property; an Apalache inductive step over UNBOUNDED strings; behaviours selected by the specification's branch signatures and replayed with a fresh construction after every step; five indexes compared one by one"),
+ "C05": ("MC_Incr", "every history of <=3 add_record calls x 4 flag combinations (narrow pools, deep) and every single add over all one-synonym records (wide, shallow); step law as TLC action property; a TLAPS proof (no bound on sizes or strings) that one add_record step preserves one-owner-per-prefix and the freshness of the prefix map, bridged to the operational specification by a refinement property checked by TLC; an Apalache inductive step over UNBOUNDED strings; behaviours selected by the specification's branch signatures and replayed with a fresh construction after every step; five indexes compared one by one"),
  "C06": ("MC_Query", "standardize_prefix/curie/uri canonical, idempotent, meaning-preserving: declarative formulas on logged answers"),
  "C07": ("MC_Query", "derived operations vs the two primitive parsers, incl. strings that are both CURIE and URI (pool contains the URI prefix 'a:' and the CURIE prefix 'a')"),
  "C08": ("MC_Query", "whole strict x passthrough matrix of the 14 functions: mode laws on logged outcomes incl. exception family"),
